@@ -6,6 +6,7 @@ from fractions import Fraction as Fr
 from ..model import UNKNOWN, FuncInfo, call_name, kwarg, unparse
 from ..report import AnalysisError
 from ..units import Q, UEval, lit
+from ..astutil import resolve
 from .c12 import NativeTable, spreading_norm
 
 
@@ -252,6 +253,76 @@ def run(repo, rep, tier):
     time_sorted(repo, rep)
     from .c11 import dir_permutation
     dir_permutation(repo, rep, "R-C13-6")
+    rep.rule("R-C13-9", "read_swanow: files are visited in ascending name order and each NEWER file takes precedence over what was "
+                        "accumulated (combine_first keeps the receiver's values where both have data)")
+    fi9 = repo.func("wavespectra.input.swan.read_swanow")
+    ok9 = False
+    for loop in ast.walk(fi9.node):
+        if isinstance(loop, ast.For) and isinstance(loop.target, ast.Name):
+            it = resolve(fi9.node, loop.iter, before=loop.lineno)
+            asc = any(isinstance(c_, ast.Call) and call_name(c_) == "sorted" and not any(k.arg == "reverse" for k in c_.keywords) for c_ in ast.walk(it)) \
+                and not any(isinstance(c_, ast.Call) and call_name(c_) == "reversed" for c_ in ast.walk(it)) \
+                and not any(isinstance(x, ast.Slice) and x.step is not None for x in ast.walk(it))
+            for st in loop.body:
+                if isinstance(st, ast.Assign) and isinstance(st.targets[0], ast.Name) and isinstance(st.value, ast.Call) \
+                        and isinstance(st.value.func, ast.Attribute) and st.value.func.attr == "combine_first" and len(st.value.args) == 1:
+                    acc = st.targets[0].id
+                    recv, arg = st.value.func.value, st.value.args[0]
+                    recv = resolve(fi9.node, recv, before=st.lineno) if isinstance(recv, ast.Name) and recv.id != acc else recv
+                    newer_wins = any(isinstance(x, ast.Name) and x.id == loop.target.id for x in ast.walk(recv)) and unparse(arg) == acc \
+                        and not any(isinstance(x, ast.Name) and x.id == acc for x in ast.walk(recv))
+                    if asc and newer_wins:
+                        ok9 = True
+                        rep.ok("R-C13-9", f"{fi9.file}:{st.lineno} read_swanow", unparse(st), "the file just read is the receiver: its dates win over older files'")
+                    else:
+                        ok9 = True
+                        rep.fail("R-C13-9", fi9.file, st.lineno, fi9.qualname, unparse(st)[:100],
+                                 "overlapping dates must come from the MOST RECENT file: the newly read file has to be the receiver of "
+                                 "combine_first (receiver wins) while files are visited oldest first", anchor="read_swanow:precedence")
+    if not ok9:
+        raise AnalysisError("read_swanow: combine_first accumulation not found")
+    rep.rule("R-C13-8", "reader classes memoise (cached_property / lru_cache) only values derived from state fixed at construction: "
+                        "a memo over per-file state (header, stream) hands the first file's grid to every later file")
+    n_memo = 0
+    for m in repo.modules.values():
+        if not m.name.startswith("wavespectra.input."):
+            continue
+        for c in m.classes.values():
+            late = {}       # attribute -> method that (re)assigns it after construction
+            for mn, fi in c.methods.items():
+                if mn == "__init__":
+                    continue
+                for n in ast.walk(fi.node):
+                    tg = n.targets if isinstance(n, ast.Assign) else [n.target] if isinstance(n, (ast.AugAssign, ast.AnnAssign)) else []
+                    for t in tg:
+                        if isinstance(t, ast.Attribute) and isinstance(t.value, ast.Name) and t.value.id == "self":
+                            late.setdefault(t.attr, mn)
+            memo = {mn: fi for mn, fi in c.methods.items()
+                    if any(unparse(d).split(".")[-1].split("(")[0] in ("cached_property", "lru_cache", "cache") for d in fi.node.decorator_list)}
+            props = {mn: fi for mn, fi in c.methods.items() if fi.is_property or mn in memo}
+
+            def reads(fi, seen):
+                out = set()
+                for n in ast.walk(fi.node):
+                    if isinstance(n, ast.Attribute) and isinstance(n.value, ast.Name) and n.value.id == "self" and isinstance(n.ctx, ast.Load):
+                        out.add(n.attr)
+                        if n.attr in props and n.attr not in seen and n.attr not in memo:
+                            out |= reads(props[n.attr], seen | {n.attr})
+                return out
+            for mn, fi in memo.items():
+                n_memo += 1
+                bad = sorted(a for a in reads(fi, {mn}) if a in late and late[a] != mn)
+                if bad:
+                    rep.fail("R-C13-8", fi.file, fi.node.lineno, fi.qualname, f"@cached {mn} reads self.{bad[0]}",
+                             f"'{mn}' is memoised on the reader instance but depends on self.{bad[0]}, which {late[bad[0]]}() reassigns for every "
+                             "file/record: later files get the first file's value", anchor=f"memo:{c.name}.{mn}")
+                else:
+                    rep.ok("R-C13-8", f"{fi.file}:{fi.node.lineno} {c.name}.{mn}", "memoised value", "depends only on attributes bound in __init__")
+    rep.floor("R-C13-8", "memoised reader properties examined", n_memo, 6)
+    rep.rule("R-C13-7", "a per-record buffer that is filled in place and emitted once per iteration is allocated afresh inside the iteration")
+    from .shared import per_iteration_buffers
+    nl, nb = per_iteration_buffers(repo, rep, "R-C13-7", ("wavespectra.core.swan", "wavespectra.input."))
+    rep.floor("R-C13-7", "per-record buffers examined", nb, 1)
     rep.trust("Python ast; format documentation for native units (WW3 station, XWaves, Obscape: m2 s rad-1; SWAN: J/m2 vs m2)")
     rep.note("NOT decided: parsing correctness (column order, header variants, timestamp parsing such as dayfirst handling, concatenation of several "
              "files) lives in runtime values of file contents; only the conversion, normalisation, passthrough, product, sorting and reordering "
